@@ -18,7 +18,7 @@ ASSUMPTIONS = [
     "all items boolean (stated)", "process-wide lru caches are cleared per configurator (they are state under test only in C09)",
     "the -2 tags are read from the real objects (default_prios) and cross-checked against the AST: one tagged inner node per defaulted rule, over exactly the non-default items",
 ]
-BOUNDS = {"quick": "1..2 rules, both id policies, 114 dictionaries", "thorough": "1..3 rules (explicit ids), 114 dictionaries"}
+BOUNDS = {"quick": "all 1..2-rule configurators (both id policies) + every third 3-rule configurator (explicit ids), 114 dictionaries", "thorough": "all 1..3-rule configurators, both id policies, 114 dictionaries"}
 
 
 _CFG = {}
@@ -26,10 +26,12 @@ _CFG = {}
 
 def cfgs(tier):
     if tier not in _CFG:
+        three = [c for c in cfgspace.configurators(3, ("explicit",)) if len(c[1][3]) == 3]
         if tier == "quick":
-            _CFG[tier] = list(cfgspace.configurators(2))
+            # the two-rule space completely, plus every third three-rule configurator (a fixed sub-space, not a sample per run)
+            _CFG[tier] = list(cfgspace.configurators(2)) + three[::3]
         else:
-            _CFG[tier] = list(cfgspace.configurators(2)) + [c for c in cfgspace.configurators(3, ("explicit",)) if len(c[1][3]) == 3]
+            _CFG[tier] = list(cfgspace.configurators(2)) + three + [c for c in cfgspace.configurators(3, ("generated",)) if len(c[1][3]) == 3]
     return _CFG[tier]
 
 
